@@ -1988,6 +1988,12 @@ def run_c04(ctx):
         compare(ctx, "C04-b", "cached_factor == J(last)·Γ(dod)·(Π_e Γ(w_e))⁻¹·π^(D·L/2)", got, want, tb.path, "cached-factor", {}, ())
         arg = getattr(tw, "jcall_arg", None)
         ctx.ob("C04-b", "the recursion is started on the full subgraph id", isinstance(arg, world.GraphIdVal) and arg.key_ == "full", tb.path, "j-start-full")
+        # `last` IS the full graph's entry: the stored table has exactly 2^E entries (E = number of edges), entry i holding subset id i
+        # (C03-b), so the last index is 2^E − 1 = (1 << E) − 1 = the full id's mask (C14-h)
+        tbl = tw.result.fields.get("table")
+        size = "⟨%s⟩" % Expr.atom(("call", "shl", Expr.const(1), Expr.symbol("E"))).key()
+        ctx.ob("C04-b", "the stored table has 2^E entries, so `last` is the entry of the full id (1<<E)−1", isinstance(tbl, Arr) and tbl.classes == (size,),
+               tb.path, "last-is-full", detail="table length class %s, expected %s" % (getattr(tbl, "classes", None), size))
     guarded_clause(ctx, "C04-b", tb.path, "cached-factor", b)
 
 
